@@ -18,10 +18,10 @@
    compression-off fragment over [good_val] of the first stage; the range
    conversion itself and the reading of repetitions are stated separately
    (C10_range_expand, C10_repetition_reads_partial).  Side conditions are
-   named at the theorems; time tags are outside. *)
+   named at the theorems; time tags: C10_timetag_... (model, calendar, fraction). *)
 From Coq Require Import List ZArith.
 From RtoscV Require Import Pretty.Tok Pretty.FloatFmt Pretty.PrintModel Pretty.ScanModel
-  Pretty.PrettyProofs Pretty.FloatProofs Pretty.SymBlobProofs Pretty.RangeProofs Pretty.RunProofs Pretty.ListProofs Pretty.ArrayProofs Pretty.MixedProofs Pretty.MixedPrint Pretty.PrettyRegress.
+  Pretty.PrettyProofs Pretty.FloatProofs Pretty.SymBlobProofs Pretty.RangeProofs Pretty.RunProofs Pretty.ListProofs Pretty.ArrayProofs Pretty.MixedProofs Pretty.MixedPrint Pretty.TimeFmt Pretty.TimeProofs Pretty.PrettyRegress.
 Import ListNotations.
 Local Open Scope Z_scope.
 
@@ -297,6 +297,49 @@ Theorem C10_float_nonvacuous :
 Proof. exact float_list_example. Qed.
 
 (* decimal integers: no open hypothesis about printf/sscanf *)
+(* TIME TAGS.  The model prints and reads them (PrintModel.print_timetag,
+   ScanModel.scan_date / skip_date; TimeFmt: the calendar of TZ=UTC and the
+   conversions of the fraction); every run compares them with the real code and
+   the calendar functions with localtime() / mktime() of libc.  Proved about the
+   model, without hypotheses:
+   - the calendar pair round-trips for every 32-bit number of seconds (dates
+     1970 .. 2106), fields in their ranges;
+   - the 32-bit fraction of a second, printed through a float (the decimal
+     digits are for the reader, the exact value is the hexadecimal float in
+     "(...+0x..s)"), comes back exactly when it has at most 24 significant bits
+     (frac_fits_float - the quantifier's "float-representable fraction"); a
+     fraction with more bits is rounded by the code (0x12345679 -> 0x12345680)
+     and one above 0xffffff7f becomes "0x1p+0", which the checker rejects:
+     outside the quantifier, see notes/C10.md;
+   - so the value of a time tag is rebuilt from what the printer writes.
+   NOT proved: that the recognisers read the printed TEXT of a time tag back for
+   every time tag (shown for the examples below by computation, and tied). *)
+Theorem C10_timetag_calendar : forall s, 0 <= s < 2 ^ 32 ->
+  let '(y, mo, d, h, mi, se) := date_of_secs s in
+  secs_of_date y mo d h mi se = s /\
+  1970 <= y <= 2200 /\ 1 <= mo <= 12 /\ 1 <= d <= 31 /\ 0 <= h < 24 /\ 0 <= mi < 60 /\ 0 <= se < 60.
+Proof. exact calendar_roundtrip. Qed.
+
+Theorem C10_timetag_fraction : forall sf, frac_fits_float sf -> float2secfracs (secfracs2float sf) = Some sf.
+Proof. exact secfracs_roundtrip. Qed.
+
+Theorem C10_timetag_value_partial : forall t, 0 <= t < 2 ^ 64 ->
+  let secs := t / 2 ^ 32 in let sf := t mod 2 ^ 32 in
+  sf = 0 \/ frac_fits_float sf ->
+  let '(y, mo, d, h, mi, se) := date_of_secs secs in
+  exists sf', (if sf =? 0 then Some 0 else float2secfracs (secfracs2float sf)) = Some sf' /\
+              secs_of_date y mo d h mi se mod 2 ^ 32 * 2 ^ 32 + sf' mod 2 ^ 32 = t.
+Proof. exact timetag_value_roundtrip. Qed.
+
+(* immediately, 2016-11-14, 2016-11-14 17:26, 2016-11-14 17:26:30,
+   2016-11-14 17:26:30.50 (...+0x1p-1s), 2106-02-07 06:28:15.00 (...+0x1.8p-23s), 12 *)
+Theorem C10_timetag_examples : forall (dec2f dec2d : list Z -> Z),
+  let o := {| lossless := true; prec := 2; linelength := 80; compress := false |} in
+  exists text w, print_arg_vals o ex_timetags 0 = Some (text, w) /\ w = len text /\
+    count_printed_arg_vals dec2f dec2d text = Ok (true, 7) /\
+    scan_arg_vals dec2f dec2d text 7 = Ok (ex_timetags, []).
+Proof. exact timetag_examples. Qed.
+
 Theorem C10_decimal_roundtrip : forall v rest,
   num_follow rest -> sc_d (print_d v ++ rest) = Some (v, rest) /\ sc_i (print_d v ++ rest) = Some (v, rest).
 Proof. exact (fun v rest H => conj (sc_d_print v rest H) (sc_i_print v rest H)). Qed.
